@@ -331,6 +331,20 @@ def _method_body_value(fi: FuncInfo, tsym="t"):
                 return S("s") / S("c")
             if isarg and fn in ("torch.atan", "torch.arctan", "math.atan", "np.arctan"):
                 return S("ATAN")
+            # algebraic wrappers: reciprocal, square, integer powers of a value this hook can already normalise
+            if a is not None and fn in ("torch.reciprocal",) and len(e.args) <= 1:
+                return C(1) / eval_expr(a, env, hook, fi.module.source)
+            if a is not None and fn in ("torch.square",) and len(e.args) <= 1:
+                v_ = eval_expr(a, env, hook, fi.module.source)
+                return v_ * v_
+            if fn in ("torch.pow",) and len(e.args) == 2 and isinstance(e.args[1], ast.Constant) and isinstance(e.args[1].value, (int, float)) \
+                    and float(e.args[1].value).is_integer() and abs(e.args[1].value) <= 6:
+                v_ = eval_expr(e.args[0], env, hook, fi.module.source)
+                k_ = int(e.args[1].value)
+                out_ = C(1)
+                for _ in range(abs(k_)):
+                    out_ = out_ * v_
+                return out_ if k_ >= 0 else C(1) / out_
         return None
     val = None
     for s in fi.node.body:
